@@ -335,6 +335,41 @@ def rw_format(text: str) -> str:
   return ''.join(out)
 
 
+def rw_iter_loops(text: str) -> str:
+  """R13i: the three slice-iteration loop headers of the native signature gate become index loops (what the iterator
+  adapters do on slices); refuses bodies with `continue`:
+     for (A, B) in X.iter().zip(Y.iter()) {..}            -> i in 0..min(X.len(), Y.len()):  A = &X[i]; B = &Y[i]
+     for (A, B) in X.iter().zip(Y.iter()).take(N) {..}    -> additionally i < N
+     for A in X[N..].iter() {..}                          -> i in N..X.len():  A = &X[i]            (N <= X.len() is an obligation)"""
+  out = text
+  k = 0
+  while True:
+    a = fn_anatomy(out)
+    fors = [l for l in a.loops if l[0] == 'for']
+    if not fors: return out
+    kw, kwo, lbo, lbc = fors[0]
+    head = re.sub(r'\s+', ' ', out[kwo:lbo]).strip()
+    body = out[lbo + 1:lbc]
+    if any(t.kind == 'id' and t.text == 'continue' for t in rsitems.lex(body)):
+      raise Undecided('R13i: loop body contains `continue`')
+    b = body.rstrip()
+    if b and not b.endswith(';') and not b.endswith('}'): b += ';'
+    iv = 'verif_i%d' % k
+    m1 = re.match(r'^for \((\w+), (\w+)\) in (\w+)\.iter\(\)\.zip\((\w+)\.iter\(\)\)(?:\.take\((.+)\))?$', head)
+    m2 = re.match(r'^for (\w+) in (\w+)\[(.+)\.\.\]\.iter\(\)$', head)
+    if m1:
+      pa, pb, x, y, take = m1.groups()
+      cond = '%s < %s.len() && %s < %s.len()' % (iv, x, iv, y) + (' && %s < (%s)' % (iv, take) if take else '')
+      new = ('let mut %s: usize = 0;\n        while %s {\n          let %s = &%s[%s];\n          let %s = &%s[%s];' % (iv, cond, pa, x, iv, pb, y, iv)) + b + '\n          %s += 1;\n        }' % iv
+    elif m2:
+      pa, x, n = m2.groups()
+      new = ('let mut %s: usize = %s;\n        while %s < %s.len() {\n          let %s = &%s[%s];' % (iv, n, iv, x, pa, x, iv)) + b + '\n          %s += 1;\n        }' % iv
+    else:
+      raise Undecided('R13i: unsupported loop header: %r' % head)
+    out = out[:kwo] + new + out[lbc + 1:]
+    k += 1
+
+
 def rw_project_struct(text: str, keep: List[str]) -> str:
   """R10: keep only the named fields of a braced struct"""
   o = text.index('{')
@@ -590,6 +625,7 @@ def build_unit(name: str, variant: Optional[str] = None, canary: bool = False) -
         elif rule == 'R10': new = rw_project_struct(new, args['keep'])
         elif rule == 'R14': new = rw_named_ops(new)
         elif rule == 'R8': new = rw_format(new)
+        elif rule == 'R13i': new = rw_iter_loops(new)
         elif rule == 'R13z': new = rw_for_zip(new, args.get('nth', 0))
         elif rule == 'R13': new = rw_for_slice(new, args.get('nth', 0), args.get('mutable', False))
         elif rule == 'R7f': new = rw_pub_fields(new)
